@@ -15,7 +15,7 @@ import (
 var consHolders = []string{"local", "call", "field", "mapval", "sliceel", "closure", "generic", "method", "iface", "param", "ptrfield"}
 var consLoops = []string{"rangeDef", "rangeAsg", "pull", "pullThenRange", "rangeThenPull", "nestedRange", "nestedIter", "zip"}
 var consCtls = []string{"none", "brk", "cont", "ret"}
-var consBodies = []string{"log", "redecl", "redecl2", "redeclcap", "redecl2cap", "redecl2ptr", "reassign"}
+var consBodies = []string{"log", "redecl", "redecl2", "redeclcap", "redecl2cap", "redecl2ptr", "reassign", "reassignit"}
 var consWraps = []string{"plain", "ingen", "inclosure"}
 
 var consBase = []string{"local", "rangeDef", "none", "log", "plain"}
@@ -138,6 +138,10 @@ func (p consProg) text(id string) string {
 		w("func() {")
 		ind++
 	}
+	if p.body == "reassignit" {
+		w("n9 := 0")
+		w("_ = n9")
+	}
 	// holder
 	G := "g"
 	closeParam := ""
@@ -219,6 +223,11 @@ func (p consProg) text(id string) string {
 			} else {
 				w("%s = Src2(c, 2)", G)
 			}
+		case "reassignit": // the iterator variable of a pull loop is re-pointed inside the loop (loop forms that declare `it`)
+			w("if n9 == 0 {")
+			w("\tit = Src2(c, 2)")
+			w("}")
+			w("n9++")
 		case "redecl2ptr":
 			w("p := &%s", v)
 			w("%s, w2 := %s+1000, 1", v, v)
@@ -329,6 +338,19 @@ func (p consProg) text(id string) string {
 	return sb.String()
 }
 
+// consAlways: configurations beyond distance 2 that the quick tier always includes (a feature pair
+// that only shows inside a generator, where the loop becomes a runtime loop with a condition thunk).
+var consAlways = map[string]bool{
+	"local|pull|none|reassignit|ingen":          true,
+	"local|pullThenRange|none|reassignit|ingen": true,
+	"local|rangeThenPull|none|reassignit|ingen": true,
+	"field|rangeDef|none|reassign|ingen":        true,
+	"sliceel|rangeDef|brk|reassign|ingen":       true,
+	"mapval|rangeAsg|cont|reassign|ingen":       true,
+	"ptrfield|nestedRange|none|reassign|ingen":  true,
+	"local|zip|none|reassignit|inclosure":       true,
+}
+
 func consFamily(tier string) *FamilySpec {
 	fs := &FamilySpec{Name: "CONS", Reductions: dimReductions(consBase), ShardSize: 120}
 	fs.Template = pipeline.Spec{DeriveRef: true, NoTmp: true, SHeaderDecl: "var _ Iter[int]\n\n", SFiles: map[string]string{"extra.go": consExtra}}
@@ -339,7 +361,7 @@ func consFamily(tier string) *FamilySpec {
 					for _, wr := range consWraps {
 						p := consProg{h, l, ctl, b, wr}
 						parts := []string{h, l, ctl, b, wr}
-						if tier != "thorough" && distance(parts, consBase) > 2 {
+						if tier != "thorough" && distance(parts, consBase) > 2 && !consAlways[p.key()] {
 							continue
 						}
 						if wr == "ingen" && h == "param" {
